@@ -22,6 +22,10 @@ ASSUMPTIONS = [
     "findRoot_terminates needs a uniform halving bound of the scalar (278 for IEEE single: tested, not proved, for Float32).",
     "The watchdog (seconds, generous) is the only use of wall-clock time; a time-out of the user-level call is re-run "
     "under a much longer watchdog before it is reported.",
+    "The *_b32 theorems (LibfiveTheorems/C17B32.lean) are about the binary32 model LibfiveModel/B32.lean; it is tied to the "
+    "hardware `float` differentially only (`vd-c17` line `b32selftest`: half, sub, div, abs, lt, ge, geHalf, isFinite, isZero, "
+    "sqAdd, unfused v-(s*d) against native Float32 bit for bit with all NaNs identified, the fused v-s*d against a "
+    "double/round-to-odd emulation because Lean 4.33 has no native Float32 fma, on seeded random and landmark operands), not by proof.",
 ]
 
 SPECIAL = {"nan": "7fc00000", "inf": "7f800000", "-inf": "ff800000", "-0": "80000000"}
@@ -344,6 +348,9 @@ def run(rep, tier, seed, replay=None):
 
     verdicts = common.run_driver("c17", text, timeout=900).splitlines()
     laws = common.run_driver("c17", "", args=["laws"], timeout=60).splitlines()
+    # binary32 model (LibfiveModel/B32.lean) against native Float32 (= C float): separate invocation
+    b32 = common.run_driver("c17", "b32selftest %d %d\n" % (seed, 20000 if tier == "quick" else 200000),
+                            timeout=600).splitlines()
     by_case = {}
     for v in verdicts:
         w = v.split()
@@ -471,6 +478,20 @@ def run(rep, tier, seed, replay=None):
     if lawfail or not any(v.startswith("ok laws") for v in laws):
         rep.violation("IEEE laws assumed by the C17 theorems fail on Float32: %s" % (lawfail[:3],),
                       {"kind": "laws", "lines": lawfail[:20]}, no_input=True)
+    b32_ok = {v.split()[2]: int(v.split()[3]) for v in b32 if v.startswith("ok b32 ")}
+    b32_mism = [v for v in b32 if v.startswith("MISMATCH b32")]
+    B32_THEOREMS = ["Libfive.C17.findRoot_terminates_b32", "Libfive.C17.inner_terminates_b32",
+                    "Libfive.C17.absent_untouched_b32"]
+    for m in b32_mism[:20]:
+        rep.violation("binary32 model and native float disagree (stream C17.b32): %s" % m[:300],
+                      {"kind": "correspondence", "stream": "C17.b32 (LibfiveModel/B32.lean vs native Float32)",
+                       "verdict": m, "theorems_affected": B32_THEOREMS,
+                       "how": "echo 'b32selftest %d %d' | lean/.lake/build/bin/vd-c17" % (seed, 20000 if tier == "quick" else 200000)},
+                      no_input=True)
+    if not b32_mism and not b32_ok:
+        rep.violation("binary32 model self-test produced no verdict (stream C17.b32): %s" % (b32[:3],),
+                      {"kind": "correspondence", "stream": "C17.b32 (LibfiveModel/B32.lean vs native Float32)",
+                       "lines": b32[:20], "theorems_affected": B32_THEOREMS}, no_input=True)
     arith_skips = [v for v in skips if v.startswith("skip arith")]
     if len(arith_skips) > max(3, len(real) // 10):
         rep.violation("Float32 re-derivation of slope/step/trial points disagrees with the harness on %d cases: %s" % (
@@ -507,4 +528,8 @@ def run(rep, tier, seed, replay=None):
                          "opcodes": hist},
         "samples": [in_cases[k] for k in list(in_cases)[:2]],
     })
+    cov["correspondence"]["b32_model_vs_native_float"] = dict(b32_ok)
+    cov["correspondence"]["b32_mismatch"] = len(b32_mism)
+    cov["correspondence"]["b32_skipped"] = [v for v in b32 if v.startswith("skip b32")]
+    cov["correspondence"]["b32_distribution"] = {v.split()[3]: int(v.split()[4]) for v in b32 if v.startswith("info b32 dist ")}
     return rep.finish("proof", cov, ASSUMPTIONS)
